@@ -26,6 +26,7 @@ type Engine struct {
 	MaxViolations    int
 	ScheduleAll      bool
 	Thorough         bool
+	FallbackSolver   string
 	buildMu          sync.Mutex
 	built            map[*ssa.Package]bool
 	builtFast        sync.Map
@@ -59,7 +60,7 @@ func Load(lc LoadConfig) (*Engine, error) {
 		return nil, err
 	}
 	e := &Engine{Workers: 1, SolverKind: "z3", QueryTimeoutMs: 20000, MaxSteps: 50_000_000, MaxConcretize: 300,
-		MaxConcreteAlloc: 1 << 22, MaxViolations: 8, built: map[*ssa.Package]bool{}}
+		MaxConcreteAlloc: 1 << 22, MaxViolations: 8, FallbackSolver: "z3-new", built: map[*ssa.Package]bool{}}
 	var errs []string
 	packages.Visit(pkgs, nil, func(p *packages.Package) {
 		for _, er := range p.Errors {
